@@ -250,12 +250,51 @@ def c01_pred(rep, cases, res):
                 rep.fail('decoder did not return Ok or a non-empty Err: %s' % k, case=c, executor=w, result=r[:300])
 
 
+def c01_cost(ctx, rep, cases):
+    """Tie of the cost semantics (Model/Cost.v, theorem C01_work_linear) to the code: the same inputs through a
+    counting implementation of the Reader trait.  Recorded, never a violation by itself: the property speaks of
+    termination, and a rewrite may legitimately issue a different number of reader calls."""
+    cc = []
+    for c in cases:
+        p = c.split('\t')
+        if p[0] == 'DEC':
+            cc.append('DECC\t%s\t%s' % (p[1], p[2]))
+        elif p[0] == 'AVPS':
+            cc.append('AVPSC\t%s' % p[1])
+    cc = cc[:20000]
+    if not cc:
+        return
+    r = ctx.runner.run(cc, ('model', 'release'))
+    same = within = n = 0
+    hist = collections.Counter()
+    worst = (0.0, '')
+    for c, a, m in zip(cc, r['release'], r['model']):
+        if not (a.startswith('cost=') and m.startswith('cost=')):
+            continue
+        n += 1
+        ia, im = int(a[5:]), int(m[5:])
+        ln = len(c.split('\t')[-1]) // 2
+        same += ia == im
+        hist[im - ia] += 1
+        within += ia <= 3 * ln + 12
+        ratio = ia / (3 * ln + 12)
+        if ratio > worst[0]:
+            worst = (ratio, c[:120])
+    rep.notes['cost_tie'] = {'cases': n, 'implementation_cost_equals_model_cost': same,
+                             'model_minus_implementation_histogram': {str(k): v for k, v in sorted(hist.items())},
+                             'expected_difference': '0, or 1 when the AVP loop is entered: the model reads len() once more to obtain its fuel',
+                             'implementation_cost_within_proved_bound_3n_plus_12': within,
+                             'worst_ratio_to_bound': round(worst[0], 3), 'worst_case': worst[1],
+                             'measure': 'reader operations issued + octets handed out by bytes(), counted by the harness CheckedReader'}
+
+
 def run_c01(ctx, budget=None):
     rep = Report()
     cases, tags = c01_cases(ctx, budget or ctx.scale(12000, 150000))
     res = run_compare(ctx, rep, cases, tags, lambda c, r: 'RETURNS' if returns(r) and cls(r) != 'ErrEmpty' else cls(r),
                       nontrivial=lambda c, m: len(c) > 12)
     c01_pred(rep, cases, res)
+    c01_cost(ctx, rep, cases)
     rep.notes['rule'] = ('structured inputs (valid messages, every prefix, Length/AVP-length grids, per-type guard grid, '
                          'data-message grid, perturbations, random) through DEC (random option set), DEC0, AVPS, TYPE in debug '
                          'and release; non-trivial = input longer than the flag word; distinct by SHA-1 of the case line')
